@@ -81,7 +81,7 @@ func evalSome(exprs []string, from int, answers []Answer) (int, error) {
 	limit := 25*time.Second + time.Duration(len(exprs)-from)*250*time.Millisecond
 	ctx, cancel := context.WithTimeout(context.Background(), limit)
 	defer cancel()
-	cmd := exec.CommandContext(ctx, "java", "-XX:+UseSerialGC", "-XX:TieredStopAtLevel=1", "-Xmx1g", "-Xss8m", "-Djava.io.tmpdir="+dir, "-cp", Jar, "tlc2.REPL")
+	cmd := exec.CommandContext(ctx, "java", "-XX:+UseSerialGC", "-XX:TieredStopAtLevel=1", "-Xmx1g", "-Xss8m", "-Djava.io.tmpdir="+dir, "-Duser.home="+dir, "-cp", Jar, "tlc2.REPL")
 	cmd.Dir = dir
 	cmd.Stdin = &in
 	var out bytes.Buffer
@@ -106,7 +106,7 @@ func evalSome(exprs []string, from int, answers []Answer) (int, error) {
 			}
 			return from, fmt.Errorf("REPL output lost track at expression %d (%s)\n%s", i, exprs[i], tail(text, 1500))
 		}
-		chunk := text[pos : pos+j]
+		chunk := stripJlineNoise(text[pos : pos+j])
 		pos += j + len(mark)
 		chunk = strings.TrimSpace(strings.TrimPrefix(strings.TrimSpace(chunk), "(tla+)"))
 		if chunk == "" || strings.HasPrefix(chunk, "Error evaluating expression") || strings.Contains(chunk, "Exception") || strings.Contains(chunk, "Attempted to") || strings.Contains(chunk, "rror") {
@@ -163,3 +163,27 @@ func EvalParallel(exprs []string, procs int) ([]Answer, error) {
 
 var _ = bufio.NewReader
 var _ = filepath.Join
+
+// stripJlineNoise removes what the REPL's line reader logs about its own history file (it keeps one per user home and
+// trims it now and then; with several REPLs at once the trim of one can fail under the other). The REPL is started with
+// a private user.home, so this should not occur; if it does, it is not part of TLC's answer.
+func stripJlineNoise(chunk string) string {
+	if !strings.Contains(chunk, "org.jline") {
+		return chunk
+	}
+	var keep []string
+	skipping := false
+	for _, line := range strings.Split(chunk, "\n") {
+		t := strings.TrimSpace(line)
+		switch {
+		case strings.Contains(t, "org.jline.utils.Log"):
+			skipping = true
+			continue
+		case skipping && (strings.HasPrefix(t, "WARNING:") || strings.HasPrefix(t, "at ") || strings.HasPrefix(t, "java.") || strings.HasPrefix(t, "Caused by") || strings.HasPrefix(t, "...") || t == ""):
+			continue
+		}
+		skipping = false
+		keep = append(keep, line)
+	}
+	return strings.Join(keep, "\n")
+}
